@@ -12,7 +12,8 @@ BIN=$HOME/.rustup/toolchains/nightly-x86_64-unknown-linux-gnu/lib/rustlib/x86_64
 export CARGO_NET_OFFLINE=true
 mkdir -p $V/work/cov/prof
 rm -f $V/work/cov/prof/*.profraw
-( cd $V/harness && CARGO_TARGET_DIR=$V/work/cov-target RUSTFLAGS="--cfg icy_engine_verif -Cinstrument-coverage" cargo +nightly build --release --offline --bin vcheck 2>&1 | tail -2 )
+( cd $V/harness && LLVM_PROFILE_FILE=$V/work/cov/prof/build-%p-%m.profraw CARGO_TARGET_DIR=$V/work/cov-target RUSTFLAGS="--cfg icy_engine_verif -Cinstrument-coverage" cargo +nightly build --release --offline --bin vcheck 2>&1 | tail -2 )
+rm -f $V/work/cov/prof/build-*.profraw
 export VERIF_BIN_OVERRIDE=$V/work/cov-target/release/vcheck
 export LLVM_PROFILE_FILE=$V/work/cov/prof/%p-%m.profraw
 export VERIF_OUT=$V/work/cov/out
